@@ -14,8 +14,9 @@ use crate::read::{
     DebugRngLists, DebugStr, DebugStrOffsets, DebugTuIndex, DebugTypes, DebugTypesUnitHeadersIter,
     DebuggingInformationEntry, EntriesCursor, EntriesRaw, EntriesTree, Error,
     IncompleteLineProgram, IndexSectionId, LocListIter, LocationLists, MacroIter, Range,
-    RangeLists, RawLocListIter, RawRngListIter, Reader, ReaderOffset, ReaderOffsetId, Result,
-    RngListIter, Section, UnitHeader, UnitIndex, UnitIndexSectionIterator, UnitOffset, UnitType,
+    RangeLists, RawLocListIter, RawRngListIter, Reader, ReaderAddress, ReaderOffset,
+    ReaderOffsetId, Result, RngListIter, Section, UnitHeader, UnitIndex, UnitIndexSectionIterator,
+    UnitOffset, UnitType,
 };
 use crate::{DebugMacroOffset, constants};
 
@@ -629,6 +630,11 @@ impl<R: Reader> Dwarf<R> {
             let end = size.and_then(|size| begin.checked_add(size)).or(high_pc);
             // TODO: perhaps return an error if `end` is `None`
             end.map(|end| Range { begin, end })
+        });
+        // Skip tombstone and empty ranges, in the same way as for range lists.
+        let range = range.filter(|range| {
+            range.begin < u64::min_tombstone(unit.encoding().address_size)
+                && range.begin < range.end
         });
         Ok(RangeIter(RangeIterInner::Single(range)))
     }
